@@ -66,10 +66,14 @@ pub enum Op {
     Script(String, usize, Vec<u8>, Vec<u8>),
 }
 
-const SCRIPTS: [&str; 3] = [
+const SCRIPTS: [&str; 5] = [
     "return redis.call('GET', KEYS[1])",
     "return redis.call('INCR', KEYS[1])",
     "redis.call('SET', KEYS[1], ARGV[1]); return redis.call('GET', KEYS[1])",
+    // scripts that leak a global (a forgotten `local`): every run starts from a fresh interpreter, so whichever shard runs it
+    // the answer is that of a first run
+    "visits = (visits or 0) + 1; redis.call('SET', KEYS[1], visits); return visits",
+    "if memo == nil then memo = {} end; memo[#memo + 1] = ARGV[1]; return #memo",
 ];
 
 fn b(s: &str) -> Vec<u8> {
@@ -528,13 +532,16 @@ fn gen_ops(rng: &mut Rng, len: usize) -> Vec<Op> {
                 }
             }
             14 => {
-                if rng.gen_bool(0.5) {
+                if rng.gen_bool(0.35) {
                     ops.push(Op::Cmd(vec![b("DBSIZE")], Path::Generic))
+                } else if rng.gen_bool(0.3) {
+                    // what a key reports about itself may depend on server-wide settings: the same on every shard
+                    ops.push(Op::Cmd(vec![b("OBJECT"), b("ENCODING"), b(keypool[rng.gen_range(0..keypool.len())])], Path::Generic))
                 } else {
                     // commands without a routing key that read or write server-wide state: they must all meet the same state
-                    let param = gen::pick(rng, &["maxmemory-policy", "maxmemory", "appendonly"]);
+                    let param = gen::pick(rng, &["maxmemory-policy", "maxmemory", "appendonly", "hash-max-listpack-entries", "list-max-listpack-size", "zset-max-listpack-entries", "set-max-listpack-entries", "hash-max-ziplist-entries"]);
                     if rng.gen_bool(0.5) {
-                        ops.push(Op::Cmd(vec![b("CONFIG"), b("SET"), param, gen::pick(rng, &["allkeys-lru", "100mb", "yes", "noeviction", "0"])], Path::Generic))
+                        ops.push(Op::Cmd(vec![b("CONFIG"), b("SET"), param, gen::pick(rng, &["allkeys-lru", "100mb", "yes", "noeviction", "0", "1", "2", "512"])], Path::Generic))
                     } else {
                         ops.push(Op::Cmd(vec![b("CONFIG"), b("GET"), param], Path::Generic))
                     }
